@@ -110,7 +110,8 @@ def run(ctx):
             specs.append(d)
     # blocks with two outputs under back-pressure: the outputs are drained by different readers,
     # so their free space differs while more input is waiting than either can take
-    for blk, prm, kind, n in (("ZeroCrossingClock", {"sps": 2.0}, "nrz", 6000), ("ZeroCrossingClock", {"sps": 4.0}, "special", 9000), ("Tee<u8>", {}, "bytes", 9000)):
+    for blk, prm, kind, n in (("ZeroCrossingClock", {"sps": 2.0}, "nrz", 6000), ("ZeroCrossingClock", {"sps": 4.0}, "special", 9000), ("Tee<u8>", {}, "bytes", 9000),
+                              ("SymbolSync", {"sps": 4.0}, "glitchy", 9000), ("SymbolSync", {"sps": 4.0}, "special", 9000), ("ZeroCrossing", {"sps": 4.0}, "glitchy", 9000)):
         for k in range(6 if not th else 12):
             gid += 1
             specs.append(dict(base(blk, prm, gid, kind=kind, len=n), mode="random", steps=400, style=3 + k % 2, id=f"{gid}:bp{k}", seed=ctx.seed * 29 + gid))
